@@ -12,6 +12,8 @@ pub fn exec_oracle(kind: &str, fields: &[&str]) -> String {
         "S_C04" => oracle_c04(fields),
         "S_C07" => oracle_c07(fields),
         "S_C07M" => oracle_c07m(fields),
+        "S_C17" => oracle_c17(fields),
+        "S_C17E" => oracle_c17e(fields),
         "S_C16" => oracle_c16(fields),
         "S_C16T" => oracle_c16t(fields),
         "S_C11A" => oracle_c11_adapt(fields),
@@ -978,4 +980,82 @@ fn oracle_c16t(fields: &[&str]) -> String {
 
 fn parse_sexagesimal_public(s: &str) -> f64 {
     angular::parse_sexagesimal(s)
+}
+
+// ----- C17: a PROJ definition instantiates the same operation as its Geodesy counterpart ------
+
+fn oracle_c17(fields: &[&str]) -> String {
+    let proj = unescape(fields[0]);
+    let geo = unescape(fields[1]);
+    let data = parse_data(fields[2]);
+    let mut ctx = Plain::default();
+    ctx.register_op("addone2", crate::exec::user_ctor("u:add2").unwrap());
+    let a = ctx.op(&proj);
+    // an empty pipeline has no Geodesy spelling other than the empty text
+    let b = ctx.op(&geo);
+    match (a, b) {
+        (Err(ea), Err(eb)) => {
+            if err_class(&ea) == err_class(&eb) {
+                "oracle pass".to_string()
+            } else {
+                format!("oracle FAIL PROJ text gives error {} but its counterpart {:?} gives {}", err_class(&ea), geo, err_class(&eb))
+            }
+        }
+        (Ok(oa), Ok(ob)) => {
+            for dir in [Fwd, Inv] {
+                let inv = dir == Inv;
+                let mut da = data.clone();
+                let mut db = data.clone();
+                let na = ctx.apply(oa, if inv { Inv } else { Fwd }, &mut da).unwrap_or(usize::MAX);
+                let nb = ctx.apply(ob, if inv { Inv } else { Fwd }, &mut db).unwrap_or(usize::MAX);
+                if na != nb || dump_data(&da) != dump_data(&db) {
+                    return format!(
+                        "oracle FAIL {:?} translates to {:?} but means {:?} ({})",
+                        proj,
+                        parse_proj(&proj).unwrap_or_default(),
+                        geo,
+                        if inv { "inverse differs" } else { "forward differs" }
+                    );
+                }
+            }
+            // translation is idempotent
+            if let Ok(t) = parse_proj(&proj) {
+                if parse_proj(&t).ok().as_deref() != Some(t.as_str()) {
+                    return format!("oracle FAIL translation not idempotent on {:?}", t);
+                }
+            }
+            "oracle pass".to_string()
+        }
+        (a, b) => format!(
+            "oracle FAIL PROJ text instantiates: {}, its counterpart {:?}: {} (translation {:?})",
+            a.is_ok(),
+            geo,
+            b.is_ok(),
+            parse_proj(&proj).unwrap_or_default()
+        ),
+    }
+}
+
+/// refusals and pass-through
+fn oracle_c17e(fields: &[&str]) -> String {
+    let t = unescape(fields[0]);
+    let r = parse_proj(&t);
+    let has_init = t.split_whitespace().any(|w| w.trim_start_matches('+').starts_with("init="));
+    let looks_proj = !t.contains('|') && t.contains("proj");
+    if looks_proj && has_init && r.is_ok() {
+        return format!("oracle FAIL init clause accepted in {:?}", t);
+    }
+    let nested = t.matches("proj=pipeline").count() > 1;
+    if looks_proj && nested && r.is_ok() {
+        return format!("oracle FAIL nested pipeline accepted in {:?}", t);
+    }
+    if !looks_proj && r.as_deref().ok() != Some(t.as_str()) {
+        return format!("oracle FAIL text that is not PROJ syntax was changed: {:?}", t);
+    }
+    if let Ok(once) = &r {
+        if parse_proj(once).ok().as_deref() != Some(once.as_str()) {
+            return format!("oracle FAIL translation not idempotent on {:?}: {:?}", t, once);
+        }
+    }
+    "oracle pass".to_string()
 }
